@@ -64,6 +64,12 @@ func (c *FCtx) assignTo(st *State, lhs ast.Expr, v Val) {
 	if id, ok := lhs.(*ast.Ident); ok && id.Name == "_" {
 		return
 	}
+	if ix, ok := lhs.(*ast.IndexExpr); ok {
+		if _, isMap := c.info.TypeOf(ix.X).Underlying().(*types.Map); isMap {
+			c.mapAssign(st, ix, v)
+			return
+		}
+	}
 	p, ok := c.resolvePlace(st, lhs)
 	if !ok {
 		fail("assignment to non-place %s", c.exprStr(lhs))
@@ -650,6 +656,10 @@ func (c *FCtx) havocLike(st *State, name string, v Val) Val {
 		return x
 	case FV:
 		return FV{Sym(c.freshName(name+"$has"), x.Present.S), Sym(c.freshName(name+"$val"), x.Value.S), x.Typ}
+	case XV:
+		rp := Sym(c.freshName(name+"$rpos"), SInt)
+		st.assume(Le(Num(0), rp))
+		return XV{Kind: x.Kind, Arr: Sym(c.freshName(name+"$xarr"), x.Arr.S), Len: Sym(c.freshName(name+"$xlen"), SInt), RPos: rp, Typ: x.Typ}
 	}
 	fail("havoc of %T", v)
 	return nil
@@ -769,6 +779,10 @@ func (c *FCtx) execLoop(st *State, lp *loopParts) []Flow {
 	}
 	lname := fmt.Sprintf("loop[%d]", ord)
 	pos := c.eng.pos(lp.node)
+	if spec.Unreachable {
+		c.oblige(st, "unreachable", lname+"/unreachable", False(), pos)
+		return nil
+	}
 	// 1. invariants hold on entry
 	env := c.invEnv(st, lp.node)
 	for k, inv := range spec.Invs {
@@ -781,9 +795,15 @@ func (c *FCtx) execLoop(st *State, lp *loopParts) []Flow {
 	mod := c.dryRun(st, iter)
 	hs := st.clone()
 	ids := sortedKeys(mod)
+	for k, fr := range c.autoFrame(st, ids) {
+		c.oblige(st, "inv-init", fmt.Sprintf("%s/auto-frame[%d]/init", lname, k+1), fr, pos)
+	}
 	for _, id := range ids {
 		hs.cells[id] = c.havocLike(hs, c.cellName(st, id), st.cells[id])
 		hs.written[id] = true
+	}
+	for _, fr := range c.autoFrame(hs, ids) {
+		hs.assume(fr)
 	}
 	// 3. assume invariants
 	henv := c.invEnv(hs, lp.node)
@@ -855,6 +875,9 @@ func (c *FCtx) execLoop(st *State, lp *loopParts) []Flow {
 		c.obls[n-1].ExpectSat = true
 	}
 	finishIter := func(ps *State) {
+		for k, fr := range c.autoFrame(ps, ids) {
+			c.oblige(ps, "inv-preserved", fmt.Sprintf("%s/auto-frame[%d]/preserved", lname, k+1), fr, pos)
+		}
 		penv := c.invEnv(ps, lp.node)
 		for k, inv := range spec.Invs {
 			if !inv.visible(c.prop) {
